@@ -1,6 +1,7 @@
 package harness
 
 import (
+	"bytes"
 	"context"
 	"os"
 	"strconv"
@@ -72,6 +73,8 @@ type arpResp struct {
 	delay time.Duration
 	pad   bool // answer padded to the 46-byte Ethernet minimum, as on a real wire
 	op1   bool // the owner defends its address with a packet in request form (opcode 1, e.g. a gratuitous ARP)
+	skip  int  // the owner misses the first `skip` requests of a probe (frame lost, host waking up) and answers the next one;
+	// delay is counted from the start of the probe (the requests of a probe go out 200 ms apart)
 }
 
 // variant switches on the features of the second stream: a client whose long hardware address begins with another
@@ -250,6 +253,7 @@ type srvRun struct {
 	cancel context.CancelFunc
 	maxBusy time.Duration
 	repoBase int // goroutines running code of the tree under test when the server is idle
+	arpSeen map[uint32]int // requests seen per address in this round
 	noise   int // ARP traffic that is no answer to a probe: 1 runt frames, 2 answers about other hosts, 3 probes by others for the same address
 }
 
@@ -257,7 +261,7 @@ func (s *srvRun) rel() uint64 { return uint64(time.Since(s.start)) }
 
 func startServer(t *testing.T, cfg srvCfg) (*srvRun, error) {
 	name := fmt.Sprintf("vif%d", atomic.AddInt64(&ifaceSeq, 1))
-	s := &srvRun{t: t, cfg: cfg, arp: map[uint32]arpResp{}}
+	s := &srvRun{t: t, cfg: cfg, arp: map[uint32]arpResp{}, arpSeen: map[uint32]int{}}
 	s.iface = &net.Interface{Index: 1, Name: name, HardwareAddr: net.HardwareAddr(cfg.selfMAC), MTU: 1500}
 	libif.VerifFake(name).Addr = ip4(cfg.selfIP)
 	s.seg = rsocks.VerifSegment(name)
@@ -283,6 +287,12 @@ func startServer(t *testing.T, cfg srvCfg) (*srvRun, error) {
 			time.AfterFunc(time.Millisecond, func() { s.seg.Inject(rsocks.KindARP, other) })
 		}
 		if r, ok := s.arp[target]; ok {
+			s.arpSeen[target]++
+			if s.arpSeen[target] <= r.skip { // misses the first requests of a probe
+				return
+			}
+			s.arpSeen[target] = 0 // the answer ends this probe; the address may be probed again in the same round
+			r.delay -= time.Duration(r.skip) * 200 * time.Millisecond
 			reply := make([]byte, 28)
 			if r.pad {
 				reply = make([]byte, 46)
@@ -349,6 +359,7 @@ func (s *srvRun) round(pkt []byte, arp []arpResp) roundObs {
 		}
 	}
 	s.arp = map[uint32]arpResp{}
+	s.arpSeen = map[uint32]int{}
 	for _, a := range arp {
 		s.arp[a.ip] = a
 	}
@@ -617,18 +628,27 @@ func (g *srvGen) next() ([]byte, []arpResp, *simClient, byte) {
 		}
 		switch r.Intn(12) {
 		case 0:
-			arp = append(arp, arpResp{a, []byte{0x02, 0xcc, 0, 0, 0, byte(a)}, time.Duration(1+r.Intn(589)) * time.Millisecond, r.Intn(2) == 0, false})
+			arp = append(arp, arpResp{a, []byte{0x02, 0xcc, 0, 0, 0, byte(a)}, time.Duration(1+r.Intn(589)) * time.Millisecond, r.Intn(2) == 0, false, 0})
 		case 1:
-			arp = append(arp, arpResp{a, cl.mac[:6], time.Duration(1+r.Intn(589)) * time.Millisecond, r.Intn(2) == 0, false})
+			arp = append(arp, arpResp{a, cl.mac[:6], time.Duration(1+r.Intn(589)) * time.Millisecond, r.Intn(2) == 0, false, 0})
 		case 2:
-			arp = append(arp, arpResp{a, []byte{0x02, 0xcc, 0, 0, 0, byte(a)}, time.Duration(610+r.Intn(300)) * time.Millisecond, false, false})
+			arp = append(arp, arpResp{a, []byte{0x02, 0xcc, 0, 0, 0, byte(a)}, time.Duration(610+r.Intn(300)) * time.Millisecond, false, false, 0})
 		}
 		if g.r2 != nil && g.r2.Intn(15) == 0 { // the server host itself answers for the address (an alias on the same interface)
-			own := arpResp{a, c.selfMAC, time.Duration(1+g.r2.Intn(589)) * time.Millisecond, false, false}
+			own := arpResp{a, c.selfMAC, time.Duration(1+g.r2.Intn(589)) * time.Millisecond, false, false, 0}
 			if n := len(arp); n > 0 && arp[n-1].ip == a {
 				arp[n-1] = own // one responder per address
 			} else {
 				arp = append(arp, own)
+			}
+		}
+	}
+	if g.r2 != nil && g.r2.Intn(3) == 0 {
+		// an owner that misses the first or the first two requests of a probe and answers the next one: still inside the window
+		for i := range arp {
+			if arp[i].delay < 150*time.Millisecond && !bytes.Equal(arp[i].mac, cl.mac[:min(6, len(cl.mac))]) && g.r2.Intn(2) == 0 {
+				arp[i].skip = 1 + g.r2.Intn(2)
+				arp[i].delay += time.Duration(arp[i].skip) * 200 * time.Millisecond
 			}
 		}
 	}
